@@ -102,6 +102,8 @@ add('for_in_array', '', 'let arr: array<int> = [4, 5, 6]\nfor e in arr {\n (prin
 add('import_fnvalue', '', '(println "skip")', 'skip\n')
 
 
+add('match_break_nested_if', 'union S2 {\n Ci { r: int },\n Re { w: int }\n}\nfn lp2(s: S2) -> int {\n let mut n: int = 0\n while (< n 5) {\n  set n (+ n 1)\n  match s {\n   Ci(c) => {\n    (println "arm")\n    if (> c.r 2) {\n     break\n    }\n   },\n   Re(q) => { set n (+ n q.w) }\n  }\n }\n return n\n}\nshadow lp2 { assert true }', '(println (lp2 S2.Ci { r: 3 }))\n(println (lp2 S2.Ci { r: 1 }))', 'arm\n1\narm\narm\narm\narm\narm\n5\n')
+
 # forward references: the callee is defined after its caller (and after main)
 add('forward_call', '', '(println (later 4))\n(println (later2 "x"))', '41\nin-later2\nxx\n',
     after='fn later(x: int) -> int {\n    return (+ (* x 10) 1)\n}\nshadow later { assert true }\nfn later2(s: string) -> string {\n    (println "in-later2")\n    return (+ s s)\n}\nshadow later2 { assert true }')
